@@ -546,7 +546,16 @@ func moveRec(name string, in *tarFile, out *tarFile, picked map[string]struct{})
 		return fmt.Errorf("file: %q: %w", name, errNotFound)
 	}
 
-	parent, _ := path.Split(strings.TrimSuffix(name, "/"))
+	// Move the parent directories first. A tar need not contain an entry for every
+	// directory; a parent without an entry of its own cannot be moved (and is not
+	// "not found"), so continue with the nearest ancestor that has one.
+	parent := name
+	for {
+		parent, _ = path.Split(strings.TrimSuffix(parent, "/"))
+		if _, ok := in.get(parent); ok || cleanEntryName(parent) == "" {
+			break
+		}
+	}
 	if err := moveRec(parent, in, out, picked); err != nil {
 		return err
 	}
